@@ -348,9 +348,16 @@ impl GraphEngine {
     }
 
     pub fn search_vector(&self, query: &[f32], k: usize) -> Result<Vec<(InternalNodeId, f32)>> {
+        // A vector stays in the index when its node is deleted. Ask for as many extra hits as
+        // there are tombstoned nodes, then drop those, so that up to k live nodes remain.
+        let runs = self.published_runs.read().unwrap().clone();
+        let tombstoned = crate::read_path_tombstones::collect_tombstoned_nodes(&runs);
         let mut pager = self.pager.write().unwrap();
         let mut idx = self.vector_index.lock().unwrap();
-        idx.search(&mut *pager, query, k)
+        let mut hits = idx.search(&mut *pager, query, k.saturating_add(tombstoned.len()))?;
+        hits.retain(|(id, _)| !tombstoned.contains(id));
+        hits.truncate(k);
+        Ok(hits)
     }
 
     pub fn scan_i2e_records(&self) -> Vec<I2eRecord> {
